@@ -520,7 +520,7 @@ pub mod handler {
 
 //@fn memcache_server/handler.rs | impl BinaryHandler | is_add_command | ret=r | safety=C10
         ensures
-            r == (opcode == 0x02 || opcode == 0x12), // @ob C06 handler.is_add_command.exact
+            r == (opcode == 0x02 || opcode == 0x12), // @ob C06,C19,C01 handler.is_add_command.exact
 //@endfn
 
 //@fn memcache_server/handler.rs | impl BinaryHandler | append_prepend | ret=r | mutself | safety=C10,C06
@@ -534,7 +534,7 @@ pub mod handler {
 
 //@fn memcache_server/handler.rs | impl BinaryHandler | is_append | ret=r | safety=C10
         ensures
-            r == (opcode == 0x0e || opcode == 0x19), // @ob C06 handler.is_append.exact
+            r == (opcode == 0x0e || opcode == 0x19), // @ob C06,C19,C01 handler.is_append.exact
 //@endfn
 
 //@fn memcache_server/handler.rs | impl BinaryHandler | set | ret=r | mutself | safety=C10,C01
@@ -566,7 +566,7 @@ pub mod handler {
 
 //@fn memcache_server/handler.rs | impl BinaryHandler | is_get_key_command | ret=r | safety=C10
         ensures
-            r == (opcode == 0x0c || opcode == 0x0d), // @ob C11 handler.is_get_key_command.exact
+            r == (opcode == 0x0c || opcode == 0x0d), // @ob C11,C19,C01 handler.is_get_key_command.exact
 //@endfn
 
 //@fn memcache_server/handler.rs | impl BinaryHandler | flush | ret=r | mutself | safety=C10,C08
